@@ -149,6 +149,12 @@ Theorem C05_rename_moves_the_subtree : forall t s d t', FsTree.wf t -> FsTree.p_
 Proof. exact TreeRenameP.rename_ok. Qed.
 Print Assumptions C05_rename_moves_the_subtree.
 
+(* ... and nothing is left at or below the old name *)
+Theorem C05_rename_leaves_nothing_behind : forall t s d t', FsTree.wf t -> FsTree.p_rename t s d = Some (FsTree.TOk, t') -> s <> d ->
+  forall r, FsTree.kind_at t' (s ++ r) = None.
+Proof. exact TreeRenameP.rename_source_gone. Qed.
+Print Assumptions C05_rename_leaves_nothing_behind.
+
 (* a failing rename, link or symlink changes nothing *)
 Theorem C05_failed_rename_link_symlink_change_nothing :
   (forall t s d c t', FsTree.p_rename t s d = Some (c, t') -> c <> FsTree.TOk -> t' = t) /\
